@@ -44,10 +44,12 @@ pub enum Mod {
     /// local inputs handed over in descending handle order (1), twice with a wrong value first
     /// (2), or with a different value when a frame's input is submitted again after a stall (3)
     InputStyle(u8),
+    /// the sessions run with a five-byte input type instead of `u8`
+    Wide,
 }
 
-pub const CORE_MENU: &[Mod] = &[Mod::Desync(1), Mod::NoChecksum, Mod::InputStyle(2), Mod::Undrained, Mod::InputStyle(3), Mod::Desync(3), Mod::UnevenTicks, Mod::InputStyle(1)];
-pub const NET_MENU: &[Mod] = &[Mod::Desync(1), Mod::NoChecksum, Mod::InputStyle(2), Mod::InputStyle(3), Mod::Desync(3), Mod::InputStyle(1)];
+pub const CORE_MENU: &[Mod] = &[Mod::Wide, Mod::Desync(1), Mod::NoChecksum, Mod::InputStyle(2), Mod::Undrained, Mod::InputStyle(3), Mod::Desync(3), Mod::UnevenTicks, Mod::InputStyle(1)];
+pub const NET_MENU: &[Mod] = &[Mod::Wide, Mod::Desync(1), Mod::NoChecksum, Mod::InputStyle(2), Mod::InputStyle(3), Mod::Desync(3), Mod::InputStyle(1)];
 
 fn apply_mod(s: &Scenario, m: Mod) -> Option<Scenario> {
     let mut x = s.clone();
@@ -76,6 +78,12 @@ fn apply_mod(s: &Scenario, m: Mod) -> Option<Scenario> {
                 return None;
             }
             x.peers.iter_mut().for_each(|p| p.input_style = st);
+        }
+        Mod::Wide => {
+            if s.wide || !s.inject.is_empty() {
+                return None;
+            }
+            x.wide = true;
         }
         Mod::UnevenTicks => {
             if s.peers.len() < 2 || s.peers.iter().any(|p| p.tick_every != 1 || p.use_wait) || !s.scripted_stalls.is_empty() {
